@@ -1,7 +1,7 @@
 from _common import COMMON_NOTE
 
 META = {'title': 'The AY chip turns any register history into the sound its registers define',
- 'lean_modules': ['ZxVerif.Props.C18'],
+ 'lean_modules': ['ZxVerif.Props.C18', 'ZxVerif.Props.C18Filter'],
  'modelled_code': ['aym/src/backends/precise.rs (integer core: ToneChannel/noise/envelope state, ENVELOPES, '
                    'ENVELOPE_RESET_TO_MAX, slide_up/slide_down/hold_*/reset_segment, update_tone/update_noise/'
                    'update_envelope/update_mixer incl. the DAC index, set_tone/set_noise/set_mixer/set_volume/'
@@ -28,7 +28,10 @@ META = {'title': 'The AY chip turns any register history into the sound its regi
                  'of the tick rate (TP >= 4); TP = 0 is checked to give the same stream as TP = 1',
                  '"bounded" is adjudicated against |sample| <= 8 (16 with the DC filter), the bound of the rational '
                  'analysis 2 * 3*sqrt(1/2) * l1(FIR) = 7.53 (interpolator overshoot x channel gains x FIR l1 norm '
-                 '1.7743); that analysis is not a Lean theorem (fir_bounded_Q is not proved)',
+                 '1.7743): fir_bounded_Q, interp_bounded_Q, dc_bounded_Q, chain_bound_numbers (Props/C18Filter.lean) '
+                 'prove it for the formulas over Q (ZxVerif/Model/AyFilter.lean), not for the f64 code; that model is '
+                 'tied to the code only through the FIR coefficient table, compared with the source text on every run '
+                 '(skipped with a note if the text can no longer be parsed)',
                  'ZXAyChip::set_regs (snapshot restore without feeding the generator) belongs to C14, not to this '
                  'check'],
  'design_ref': 'DESIGN.md section 8, C18; Appendix E "C18 envelope"',
@@ -49,7 +52,7 @@ META = {'title': 'The AY chip turns any register history into the sound its regi
                '8-384 kHz, not proved.',
  'level_note': COMMON_NOTE + ' PARTIAL: everything after update_mixer (IEEE-754 interpolation, FIR decimation, DC '
                'filter, and therefore "every sample is finite and bounded" and the mapping of ticks to output time) '
-               'is observed by the harness only; fir_bounded_Q of DESIGN section 8 is NOT proved. bv_decide is used '
+               'is observed by the harness only; fir_bounded_Q and its companions are proved over a Q-model of the filter formulas (with Mathlib nlinarith/ring), which says what exact arithmetic would give, not what the f64 code gives. bv_decide is used '
                'for one statement (the 64-bit LFSR step equals the 17-bit LFSR on 17-bit values); decide +kernel for '
                'the 16 x 96 envelope step table. Open finding: AymPrecise is unusable below f_clk/64 = 27.7 kHz '
                '(samples unbounded, pitch wrong), see known_findings.json C18/signal.low-rate and '
